@@ -235,7 +235,7 @@ fn data_twins(front: Front, reg: Reg, flip_bit: Option<usize>, rng: &mut Prng, c
                 let mut v = auth.clone();
                 // re-send the authentic frame with a fresh counter would be accepted; flip a bit of
                 // a *fresh* authentic frame instead so that only the flip makes it invalid
-                let fresh = net.downlink(&Down { fcnt: n_auth + 1, port: Some(9), payload: &[5, 5, 5, 5, 5, 5], f_opts: &dev_status_req(), ..Default::default() });
+                let fresh = net.downlink(&Down { fcnt: n_auth + 1, port: Some(9), payload: &[5, 5, 5, 5, 5, 5], confirmed: rng.bool(), f_opts: &dev_status_req(), ..Default::default() });
                 v.clone_from(&fresh);
                 let bit = flip_bit.unwrap_or_else(|| rng.below((v.len() * 8) as u64) as usize) % (v.len() * 8);
                 v[bit / 8] ^= 1 << (bit % 8);
@@ -246,8 +246,10 @@ fn data_twins(front: Front, reg: Reg, flip_bit: Option<usize>, rng: &mut Prng, c
                 other.downlink(&Down { fcnt: n_auth + 1, port: Some(3), payload: &[3, 3], confirmed: rng.bool(), f_opts: &dev_status_req(), ..Default::default() })
             }
             RK::OtherSession => {
-                let other = Net { nwk: rng.arr(), app: rng.arr(), addr: rng.next_u32() };
-                other.downlink(&Down { fcnt: n_auth + 1, port: Some(1), payload: &[1], ..Default::default() })
+                // foreign keys; half of the time under this device's own address (a forgery, or the
+                // frame of a previous session of the same address), confirmed or not
+                let other = Net { nwk: rng.arr(), app: rng.arr(), addr: if rng.bool() { net.addr } else { rng.next_u32() } };
+                other.downlink(&Down { fcnt: n_auth + 1, port: Some(1), payload: &[1], confirmed: rng.bool(), ..Default::default() })
             }
             // in ADR mode nothing was delivered yet: the last accepted downlink is the one the
             // session started from
@@ -270,7 +272,7 @@ fn data_twins(front: Front, reg: Reg, flip_bit: Option<usize>, rng: &mut Prng, c
             }
             RK::Oversize => net.downlink(&Down { fcnt: n_auth + 1, port: Some(4), payload: &rng.bytes(200), confirmed: true, ..Default::default() }),
             RK::Truncated => {
-                let mut v = net.downlink(&Down { fcnt: n_auth + 1, port: Some(4), payload: &[1, 2, 3], ..Default::default() });
+                let mut v = net.downlink(&Down { fcnt: n_auth + 1, port: Some(4), payload: &[1, 2, 3], confirmed: rng.bool(), ..Default::default() });
                 let cut = rng.range(1, 5) as usize;
                 v.truncate(v.len() - cut);
                 v
